@@ -19,6 +19,8 @@ pub enum Source {
     /// family member k presented unusually: ac facts in a permuted order that differs from the statement order, labels
     /// that both sortings reorder, and a sorting (none / lexicographic / alphanumeric) - all a fixed function of k
     FamPresented(Family),
+    /// ring ADFs R(n): members first + step*k (see mid.rs); sorting and fact order cycle with k
+    Ring(usize, u64, u64),
 }
 
 /// labels that are not declared in sorted order under either sorting (b10 < b9 byte-wise, 9 < 10 naturally)
@@ -44,6 +46,8 @@ pub struct Case {
     pub sorting: usize,
     /// labels in declaration order (index = position in `tts`)
     pub labels: Vec<String>,
+    /// mid-size ADFs are given by formulas (their truth tables do not fit a u32); `tts` is empty then
+    pub formulas: Option<std::sync::Arc<crate::large::LargeAdf>>,
 }
 
 impl Source {
@@ -53,12 +57,20 @@ impl Source {
             Source::FamAllWriters(f) => format!("{} x all writer tuples", f.name),
             Source::Formulas(n, _) => n.clone(),
             Source::FamPresented(f) => format!("{} presented with permuted ac facts, reordering labels and sortings", f.name),
+            Source::Ring(n, first, step) => {
+                if *step == 1 {
+                    format!("R({}): all ring ADFs with {} statements", n, n)
+                } else {
+                    format!("R({}) class {} mod {}: ring ADFs with {} statements", n, first, step, n)
+                }
+            }
         }
     }
     pub fn n(&self) -> usize {
         match self {
             Source::Fam(f) | Source::FamAllWriters(f) | Source::FamCompact(f) | Source::FamPresented(f) => f.n,
             Source::Formulas(..) => 2,
+            Source::Ring(n, _, _) => *n,
         }
     }
     pub fn size(&self) -> u64 {
@@ -66,6 +78,14 @@ impl Source {
             Source::Fam(f) | Source::FamCompact(f) | Source::FamPresented(f) => f.size(),
             Source::FamAllWriters(f) => f.size() * (WRITERS as u64).pow(f.n as u32),
             Source::Formulas(_, l) => l.len() as u64,
+            Source::Ring(n, first, step) => {
+                let raw = crate::mid::ring_size(*n);
+                if *first >= raw {
+                    0
+                } else {
+                    (raw - first + step - 1) / step
+                }
+            }
         }
     }
     pub fn get(&self, k: u64) -> Case {
@@ -74,20 +94,20 @@ impl Source {
                 let tts = f.get(k);
                 let fms = adf_fms(&tts, f.raw_index(k));
                 let text = adf_text_fm(&fms, &names(f.n));
-                Case { labels: names(tts.len()), tts, text, fms, sorting: 0 }
+                Case { labels: names(tts.len()), tts, text, fms, sorting: 0, formulas: None }
             }
             Source::FamCompact(f) => {
                 let tts = f.get(k);
                 let fms: Vec<Fm> = tts.iter().map(|tt| write_fm(*tt, f.n, 5)).collect();
                 let text = adf_text_fm(&fms, &names(f.n));
-                Case { labels: names(tts.len()), tts, text, fms, sorting: 0 }
+                Case { labels: names(tts.len()), tts, text, fms, sorting: 0, formulas: None }
             }
             Source::FamAllWriters(f) => {
                 let wn = (WRITERS as u64).pow(f.n as u32);
                 let tts = f.get(k / wn);
                 let fms = adf_fms(&tts, k % wn);
                 let text = adf_text_fm(&fms, &names(f.n));
-                Case { labels: names(tts.len()), tts, text, fms, sorting: 0 }
+                Case { labels: names(tts.len()), tts, text, fms, sorting: 0, formulas: None }
             }
             Source::FamPresented(f) => {
                 let n = f.n;
@@ -115,7 +135,17 @@ impl Source {
                         text += &format!("ac({},{}).", labels[*i], fms[*i].text(&labels, ("", "")));
                     }
                 }
-                Case { tts, text, fms, sorting: (k % 3) as usize, labels }
+                Case { tts, text, fms, sorting: (k % 3) as usize, labels, formulas: None }
+            }
+            Source::Ring(n, first, step) => {
+                let idx = first + step * k;
+                let l = crate::mid::ring(*n, idx);
+                // fact order: statements then conditions, conditions rotated by k; every third member sorted
+                let nn = *n;
+                let rot = (k % nn as u64) as usize;
+                let perm: Vec<usize> = (0..nn).chain((0..nn).map(|i| nn + (i + rot) % nn)).collect();
+                let text = l.text(Some(&perm), ("", "", ""));
+                Case { tts: vec![], text, fms: l.conds.clone(), sorting: (k % 3) as usize, labels: l.labels.clone(), formulas: Some(std::sync::Arc::new(l)) }
             }
             Source::Formulas(_, l) => {
                 let phi = l[k as usize].clone();
@@ -123,13 +153,17 @@ impl Source {
                 let tts = vec![phi.tt(2), ps.tt(2)];
                 let fms = vec![phi, ps];
                 let text = adf_text_fm(&fms, &names(2));
-                Case { labels: names(tts.len()), tts, text, fms, sorting: 0 }
+                Case { labels: names(tts.len()), tts, text, fms, sorting: 0, formulas: None }
             }
         }
     }
     pub fn describe(&self, k: u64) -> Value {
         let c = self.get(k);
-        json!({"type": "adf", "source": self.name(), "index": k, "tts": c.tts, "text": c.text, "sorting": c.sorting, "labels": c.labels})
+        let mut v = json!({"type": "adf", "source": self.name(), "index": k, "tts": c.tts, "text": c.text, "sorting": c.sorting, "labels": c.labels});
+        if let Source::Ring(n, first, step) = self {
+            v["ring"] = json!({"n": n, "index": first + step * k});
+        }
+        v
     }
 }
 
@@ -164,7 +198,14 @@ pub fn standard_sources(run: &Run, with_formulas: bool) -> Vec<Source> {
         f42.step = 128;
         f42.name = format!("F(4,2) class {} mod 128", run.seed % 128);
         v.push(Source::FamCompact(f42));
+        // mid-size: ring ADFs with 6 and 7 statements, one residue class each (complete in the thorough tier)
+        v.push(Source::Ring(6, run.seed % 16, 16));
+        v.push(Source::Ring(7, run.seed % 512, 512));
+        v.push(Source::Ring(8, run.seed % 16384, 16384));
     } else {
+        v.push(Source::Ring(6, 0, 1));
+        v.push(Source::Ring(7, run.seed % 16, 16));
+        v.push(Source::Ring(8, run.seed % 512, 512));
         v.push(Source::Fam(fam_a(3)));
         v.push(Source::Fam(fam_f(5, 1)));
         v.push(Source::Fam(fam_f(4, 2)));
